@@ -552,6 +552,9 @@ func overlappedHandling(res *core.Result, pool *idPool, r *rand.Rand, t *vmesh.T
 	var inside atomic.Bool
 	overlaps := 0
 	ms.OnLinkSend = func(l *vmesh.VLink, data []byte) {
+		if core.FromForeignGoroutine() {
+			return // a tree that hands frames to its links from a worker of its own: that worker is not the handler
+		}
 		if decodeAnnouncement(data) == nil || r.IntN(2) == 0 || !inside.CompareAndSwap(false, true) {
 			return
 		}
@@ -793,7 +796,7 @@ func run(c *core.Ctx) {
 			overlappedHandling(res, pool, r, t)
 		}
 	})
-	res.Require(res.Counter("announcements_handled_while_another_was_being_forwarded") >= 50 || res.ViolationCount() > 0, "fewer than 50 overlapping handlings of announcements at one router")
+	res.Require(res.Counter("announcements_handled_while_another_was_being_forwarded") >= 50 || res.ViolationCount() > 0 || core.AsyncTree.Load(), "fewer than 50 overlapping handlings of announcements at one router")
 	// the largest announcements a frame can carry
 	parallel(4, func(w int) {
 		lo := 9700 + w*45
